@@ -510,7 +510,9 @@ def run(ctx, spec):
         gold = golds[(i // 2) % 2]
         root = os.path.join(ctx.scratch, f"c18-pack{i}")
         os.makedirs(os.path.join(root, "tmp"))
-        fs = fsmon.MonFS(delay_seed=ctx.seed * 977 + i, delay_p=0.3, delay_max=0.004)
+        # (longer and more frequent delays for the layout in which the tasks share a parent directory)
+        fs = fsmon.MonFS(delay_seed=ctx.seed * 977 + i, delay_p=0.6 if i % 3 == 2 else 0.3,
+                         delay_max=0.012 if i % 3 == 2 else 0.004)
         if i % 4 >= 2:
             fs.listing_order = "creation"      # listings follow the (schedule-dependent) creation order
         paths = [os.path.join(root, "a.parq")] + ([os.path.join(root, "b.parq")] if two else [])
